@@ -111,9 +111,9 @@ PROPS = {
         'abi_module': 'AbiCtx',
         'stages': quick_thorough(
             [{'name': 'table', 'sub': 'ctxpt', 'n': 300},
-             {'name': 'live', 'sub': 'tl', 'n': 40, 'args': ['c04', 'listed', 'regs', 'stackbytes'], 'timeout': 600}],
+             {'name': 'live', 'sub': 'tl', 'n': 40, 'args': ['c04', 'listed', 'regs', 'stackbytes', 'memlist'], 'timeout': 600}],
             [{'name': 'table', 'sub': 'ctxpt', 'n': 20000},
-             {'name': 'live', 'sub': 'tl', 'n': 1200, 'args': ['c04', 'listed', 'regs', 'stackbytes'], 'timeout': 3000}]),
+             {'name': 'live', 'sub': 'tl', 'n': 1200, 'args': ['c04', 'listed', 'regs', 'stackbytes', 'memlist'], 'timeout': 3000}]),
         'assumptions': ["the state a stopped thread 'actually had' is what PTRACE_GETREGS / GETFPREGS / PEEKUSER return to the harness inside the same suspended window",
                         "which threads must be listed is decided from the scenario the harness built (all threads except null-SP helpers), not from the writer's attach outcome"],
         'partial': 'single-instant consistency is observed (spinning threads: registers and stack bytes equal the harness snapshot taken while suspended), the ptrace/stop protocol itself is C03; threads exiting between enumeration and attach are exercised by C03/C11 stages',
@@ -122,8 +122,10 @@ PROPS = {
         'abi_module': 'AbiCtx',
         'stages': quick_thorough(
             [{'name': 'table', 'sub': 'ctxuc', 'n': 300},
+             {'name': 'ptable', 'sub': 'ctxpt', 'n': 150},
              {'name': 'live', 'sub': 'tl', 'n': 40, 'args': ['c05', 'crashctx', 'exception'], 'timeout': 600}],
             [{'name': 'table', 'sub': 'ctxuc', 'n': 20000},
+             {'name': 'ptable', 'sub': 'ctxpt', 'n': 10000},
              {'name': 'live', 'sub': 'tl', 'n': 1500, 'args': ['c05', 'crashctx', 'exception'], 'timeout': 3000}]),
         'assumptions': ["ss/ds/es are not part of a ucontext and are not claimed"],
         'partial': 'K1 (blamed thread absent) is a recorded finding',
@@ -131,8 +133,8 @@ PROPS = {
     'C07': {
         'abi_module': 'AbiTl',
         'stages': quick_thorough(
-            [{'name': 'live', 'sub': 'tl', 'n': 40, 'args': ['c07', 'memlist'], 'timeout': 600}],
-            [{'name': 'live', 'sub': 'tl', 'n': 1500, 'args': ['c07', 'memlist'], 'timeout': 3000}]),
+            [{'name': 'live', 'sub': 'tl', 'n': 40, 'args': ['c07', 'memlist', 'region'], 'timeout': 600}],
+            [{'name': 'live', 'sub': 'tl', 'n': 1500, 'args': ['c07', 'memlist', 'region'], 'timeout': 3000}]),
         'assumptions': ["target memory = what the harness reads from /proc/<pid>/mem inside the suspended window",
                         "the memory list is compared against the thread records of the same image (stacks), the crash instruction pointer and the requested regions"],
         'partial': 'byte fidelity is relative to the read primitives (C17); short reads of application regions adjacent to unmapped pages are an error of the whole dump (hard step), as coded',
